@@ -109,30 +109,30 @@ void
 f_next_inventory (void)
 {
   object_t *ob;
+  int show_hidden = 1;
+
+  /* The master is asked once and before the walk: valid_hide() is LPC code, which can
+   * move or destruct the objects we are stepping through. */
+  for (ob = sp->u.ob->next_inv; ob; ob = ob->next_inv)
+    if (ob->flags & O_HIDDEN)
+      {
+        show_hidden = object_visible (ob);
+        break;
+      }
+  if (sp->type != T_OBJECT)
+    return;			/* destructed meanwhile: destruct_object() has put 0 there */
 
   ob = sp->u.ob->next_inv;
   free_object (sp->u.ob, "f_next_inventory");
-  while (ob)
+  while (ob && (ob->flags & O_HIDDEN) && !show_hidden)
+    ob = ob->next_inv;
+  if (ob)
     {
-      if (ob->flags & O_HIDDEN)
-        {
-          object_t *old_ob = ob;
-          if (object_visible (ob))
-            {
-              add_ref (old_ob, "next_inventory(ob) : 1");
-              sp->u.ob = old_ob;
-              return;
-            }
-        }
-      else
-        {
-          add_ref (ob, "next_inventory(ob) : 2");
-          sp->u.ob = ob;
-          return;
-        }
-      ob = ob->next_inv;
+      add_ref (ob, "next_inventory(ob)");
+      sp->u.ob = ob;
     }
-  *sp = const0;
+  else
+    *sp = const0;
 }
 #endif
 
@@ -142,7 +142,8 @@ void
 f_all_inventory (void)
 {
   array_t *vec = all_inventory (sp->u.ob, 0);
-  free_object (sp->u.ob, "f_all_inventory");
+  /* valid_hide() may have destructed the object: it is not on the stack any more then */
+  free_svalue (sp, "f_all_inventory");
   sp->type = T_ARRAY;
   sp->u.arr = vec;
 }
@@ -156,7 +157,8 @@ f_deep_inventory (void)
   array_t *vec;
 
   vec = deep_inventory (sp->u.ob, 0);
-  free_object (sp->u.ob, "f_deep_inventory");
+  /* valid_hide() may have destructed the object: it is not on the stack any more then */
+  free_svalue (sp, "f_deep_inventory");
   put_array (vec);
 }
 #endif
